@@ -8,7 +8,8 @@ fake clocks (tool_env), seeded python RNG for garbage bytes.
   build_states(b, env, outdir, tier, seed) -> list of State(id, profile, variant, path, undo, kind)
      kind in {"clean", "journal", "orphan", "mmp", "quota", "corrupt", "undo"}; everything but "clean" is non-trivial.
 """
-import os, struct, random, subprocess, shutil, re, hashlib
+import os, struct, random, subprocess, shutil, re, hashlib, threading
+import concurrent.futures as cf
 from collections import namedtuple
 
 State = namedtuple("State", "id profile variant path undo kind")
@@ -23,7 +24,7 @@ PROFILES = [
     ("ext3", ["-t", "ext3", "-g", "2048"]),
     ("ext4", ["-t", "ext4", "-g", "2048", "-O", "metadata_csum,64bit,orphan_file,metadata_csum_seed"]),
     ("quota", ["-t", "ext4", "-g", "2048", "-O", "metadata_csum,64bit,quota"]),
-    ("mmp", ["-t", "ext4", "-g", "2048", "-O", "metadata_csum,64bit,mmp", "-E", "mmp_update_interval=1"]),
+    ("mmp", ["-t", "ext4", "-g", "2048", "-O", "metadata_csum,64bit"]),      # + tune2fs -O mmp, see make_base
     ("bigalloc", ["-t", "ext4", "-O", "metadata_csum,64bit,bigalloc", "-C", "2048", "-g", "4096"]),
     ("inline", ["-t", "ext4", "-g", "2048", "-O", "metadata_csum,64bit,inline_data"]),
 ]
@@ -127,7 +128,7 @@ class Ctx:
         return p.returncode, p.stdout.decode("utf8", "replace")
 
     def dbg(self, img, cmds, write=True, ok=(0,)):
-        script = os.path.join(self.work, "gen_%d.dfs" % os.getpid())
+        script = os.path.join(self.work, "gen_%d_%d.dfs" % (os.getpid(), threading.get_ident()))
         with open(script, "w") as f:
             f.write("\n".join(cmds) + "\n")
         argv = [os.path.join(self.b, "debugfs", "debugfs")] + (["-w"] if write else []) + ["-f", script, img]
@@ -203,6 +204,13 @@ def make_base(ctx, prof, args, dst):
         raise GenError("populate failed on %s:\n%s" % (prof, out[-800:]))
     fsck = os.path.join(ctx.b, "e2fsck", "e2fsck")
     ctx.run([fsck, "-fyD", dst], ok=(0, 1))
+    if prof == "mmp":
+        # MMP is switched on last: every read-write open of an MMP file system sleeps 2 * check_interval + 1 = 11 s
+        ctx.run([os.path.join(ctx.b, "misc", "tune2fs"), "-O", "mmp", "-E", "mmp_update_interval=1", dst])
+        g = Geom(dst)
+        if not (g.incompat & 0x100) or not g.mmp_block:
+            raise GenError("tune2fs -O mmp did not enable MMP")
+        _mmp(ctx, dst, g, 0xFF4D4D50, node=b"node\0\0\0\0\0")      # clean, with a fixed time stamp and node name
     rc, out = ctx.run([fsck, "-fn", dst], ok=None)
     if rc != 0:
         raise GenError("base image of profile %s is not clean after e2fsck -fyD (rc=%d):\n%s" % (prof, rc, out[-800:]))
@@ -555,13 +563,14 @@ def v_orphan_file_recover(ctx, img, g):
 
 
 # --- MMP
-def _mmp(ctx, img, g, seq, magic=0x004D4D50, goodcsum=True):
+def _mmp(ctx, img, g, seq, magic=0x004D4D50, goodcsum=True, node=b"othernode"):
     if not g.mmp_block:
         raise GenError("no MMP block")
     buf = bytearray(rd(img, g.mmp_block * g.bs, 1024))
     struct.pack_into("<II", buf, 0, magic, seq)
     struct.pack_into("<Q", buf, 8, 1600000000)
-    buf[16:16 + 9] = b"othernode"
+    buf[16:16 + 64] = node.ljust(64, b"\0")
+    buf[80:80 + 32] = b"dev".ljust(32, b"\0")
     c = crc32c(g.csum_seed, bytes(buf[:1020]))
     struct.pack_into("<I", buf, 1020, c if goodcsum else c ^ 0xFFFF)
     poke(img, g.mmp_block * g.bs, bytes(buf))
@@ -685,7 +694,7 @@ VARIANTS = [
     ("resize_inode", "corrupt", ALL, v_resize_inode),
 ]
 # the states every tier uses; "rand_*" are added per tier
-NRAND = {"quick": 2, "thorough": 24}
+NRAND = {"quick": 2, "thorough": 16}
 
 
 def sparse_copy(src, dst):
@@ -719,41 +728,59 @@ def _build_profile(b, env, outdir, tier, seed, prof, args, only):
     base = os.path.join(outdir, "base_%s.img" % prof)
     make_base(ctx, prof, args, base)
     base_digest = hashlib.sha256(open(base, "rb").read()).digest()
-    for name, kind, applies, fn in variant_table(tier):
+
+    def one(v):
+        name, kind, applies, fn = v
         sid = "%s/%s" % (prof, name)
         if not applies(prof) or (only and sid not in only):
-            continue
+            return None
         dst = os.path.join(outdir, "%s__%s.img" % (prof, name))
         sparse_copy(base, dst)
         try:
             fn(ctx, dst, Geom(dst))
         except Skip:
-            os.unlink(dst); skipped.append((sid, "recipe not applicable")); continue
+            os.unlink(dst)
+            return (sid, "recipe not applicable")
         if name != "clean" and hashlib.sha256(open(dst, "rb").read()).digest() == base_digest:
-            os.unlink(dst); skipped.append((sid, "recipe left the image unchanged")); continue
-        states.append(State(sid, prof, name, dst, "", kind))
+            os.unlink(dst)
+            return (sid, "recipe left the image unchanged")
+        return State(sid, prof, name, dst, "", kind)
     # undo state: tune2fs -z on a copy of the clean image; the undo file is shared by every `e2undo` invocation of the
     # profile (e2undo checks the superblock against it; -f overrides)
-    sid = "%s/post_tune_undo" % prof
-    dst = os.path.join(outdir, "%s__post_tune_undo.img" % prof)
+    usid = "%s/post_tune_undo" % prof
+    udst = os.path.join(outdir, "%s__post_tune_undo.img" % prof)
     undo = os.path.join(outdir, "%s.undo" % prof)
-    sparse_copy(base, dst)
-    if os.path.exists(undo):
-        os.unlink(undo)
-    ctx.run([os.path.join(b, "misc", "tune2fs"), "-z", undo, "-L", "relabelled", "-c", "25", "-e", "remount-ro", dst], ok=(0,))
-    if not os.path.exists(undo) or os.path.getsize(undo) == 0:
-        raise GenError("tune2fs -z wrote no undo file for %s" % prof)
-    if not only or sid in only:
-        states.append(State(sid, prof, "post_tune_undo", dst, undo, "undo"))
+
+    def make_undo():
+        sparse_copy(base, udst)
+        if os.path.exists(undo):
+            os.unlink(undo)
+        inc = struct.unpack_from("<I", rd(udst, 1024 + 96, 4))[0]
+        if inc & 0x100:       # MMP: tune2fs would sleep 2 x 11 s; made with the feature hidden, so that on this profile
+            sb_set(udst, 96, "<I", inc & ~0x100)     # the undo file matches no state and only `e2undo -f` gets past the header
+        ctx.run([os.path.join(b, "misc", "tune2fs"), "-z", undo, "-L", "relabelled", "-c", "25", "-e", "remount-ro", udst], ok=(0,))
+        if inc & 0x100:
+            sb_set(udst, 96, "<I", struct.unpack_from("<I", rd(udst, 1024 + 96, 4))[0] | 0x100)
+        if not os.path.exists(undo) or os.path.getsize(undo) == 0:
+            raise GenError("tune2fs -z wrote no undo file for %s" % prof)
+    with cf.ThreadPoolExecutor(max_workers=5) as ex:
+        fu = ex.submit(make_undo)
+        for r in ex.map(one, variant_table(tier)):
+            if isinstance(r, State):
+                states.append(r)
+            elif r:
+                skipped.append(r)
+        fu.result()
+    if not only or usid in only:
+        states.append(State(usid, prof, "post_tune_undo", udst, undo, "undo"))
     else:
-        os.unlink(dst)
+        os.unlink(udst)
     return [s._replace(undo=undo) for s in states], skipped
 
 
 def build_states(b, env, outdir, tier, seed, only=None):
     """Build every state (profiles in parallel); returns (states, skipped) -- skipped = [(id, reason)] for recipes that
     do not apply to a profile.  `only` = list of state ids to build (replay)."""
-    import concurrent.futures as cf
     os.makedirs(outdir, exist_ok=True)
     profs = [(p, a) for p, a in PROFILES if not only or any(o.startswith(p + "/") for o in only)]
     states, skipped = [], []
